@@ -7,11 +7,13 @@
 (*   {"tid":n, "attached0":[1,2],                                          *)
 (*    "evs":[{"op":"update","s":1,"a":2,"ds":[1,3],"x":0,"exc":"",         *)
 (*            "st":{"routers":[[s,a,[[d,status],..]],..],                  *)
-(*                  "path":[[s,d,a],..], "attached":[..]},                 *)
+(*                  "path":[[s,d,a,ghost],..], "attached":[..]},           *)
 (*            "probe":[[["data",1,2]], .. one entry per dnet]}]}           *)
 (*   probe entry: the frames the node emitted for a packet to that dnet,   *)
 (*   each [kind, network it was sent on, destination MAC (0 = broadcast)]  *)
-(* ("probe": [] when no probe traffic was sent after the step).            *)
+(* ("probe": [] when no probe traffic was sent after the step; ghost = 1:  *)
+(* the lookup returned a record that is not the one the router index holds *)
+(* for that address -- same address, separate bookkeeping).                *)
 (* For every step TLC decides (a) conformance: is the logged post-state    *)
 (* the successor of the logged pre-state under the RouteCache action named *)
 (* by the event, and (b) the C19 monitors on the logged states.  Steps     *)
@@ -21,8 +23,8 @@
 EXTENDS RouteCache, Sequences, Json, IOUtils, TLCExt
 
 Traces == ndJsonDeserialize(IOEnv.TRACE_FILE)
-VARIABLES tid, l, rej, viol, skipped
-tvars == <<tid, l, rej, viol, skipped>>
+VARIABLES tid, l, rej, viol, skipped, ghost
+tvars == <<tid, l, rej, viol, skipped, ghost>>
 T == Traces[tid].evs
 ToSet(q) == {q[i] : i \in 1..Len(q)}
 
@@ -37,7 +39,7 @@ PathFrom(q) ==
     [k \in {<<q[i][1], q[i][2]>> : i \in 1..Len(q)} |-> q[CHOOSE i \in 1..Len(q) : <<q[i][1], q[i][2]>> = k][3]]
 
 TInit ==
-    /\ tid \in 1..Len(Traces) /\ l = 1 /\ rej = 0 /\ viol = {} /\ skipped = {}
+    /\ tid \in 1..Len(Traces) /\ l = 1 /\ rej = 0 /\ viol = {} /\ skipped = {} /\ ghost = FALSE
     /\ routers = [s \in SNets |-> <<>>] /\ path = <<>>
     /\ attached = ToSet(Traces[tid].attached0)
     /\ act = Act("init", 0, 0, {}, 0)
@@ -69,8 +71,12 @@ TrafficFollowsKnowledge(probe, att, pth) ==
                THEN \E s \in srcs : em = {<<"data", s, pth[<<s, d>>]>>}
                ELSE em = {<<"whois", s, 0>> : s \in att}
 
+\* "leads to that router": the record a lookup returns is the router index's own record
+Ghosts(e) == \E i \in 1..Len(e.st.path) : e.st.path[i][4] = 1
+
 Failing(e) ==
     (IF TypeOK' THEN {} ELSE {"TypeOK"}) \cup
+    (IF Ghosts(e) THEN {"Coherent:SameRecord"} ELSE {}) \cup
     (IF OneNextHop' THEN {} ELSE {"Coherent:OneNextHop"}) \cup
     (IF LookupsLead' THEN {} ELSE {"Coherent:LookupsLead"}) \cup
     (IF NothingElse' THEN {} ELSE {"Coherent:NothingElse"}) \cup
@@ -80,22 +86,25 @@ Failing(e) ==
      IF A_NewestWins THEN {} ELSE {"NewestWins"}) \cup
     (IF e.op \in {"del_router", "del_dnets"} /\ e.exc # "" THEN {"DeleteExact:raised"} ELSE
      IF A_DeleteExact THEN {} ELSE {"DeleteExact"}) \cup
-    (IF e.probe = <<>> THEN {} ELSE IF TrafficFollowsKnowledge(e.probe, attached', path') THEN {} ELSE {"TrafficFollowsKnowledge"})
+    \* (judged against coherent knowledge only: otherwise the step is blamed for the incoherence)
+    (IF e.probe = <<>> \/ ~(TypeOK' /\ Coherent') \/ Ghosts(e) THEN {}
+     ELSE IF TrafficFollowsKnowledge(e.probe, attached', path') THEN {} ELSE {"TrafficFollowsKnowledge"})
 
 Step ==
     /\ l <= Len(T)
     /\ LET e   == T[l]
-           pre == TypeOK /\ Coherent
+           pre == TypeOK /\ Coherent /\ ~ghost
        IN  /\ Bind(e)
            /\ rej' = IF rej = 0 /\ pre /\ (e.exc # "" \/ ~ENABLED (ActOf(e) /\ Bind(e))) THEN l ELSE rej
            /\ viol' = IF pre THEN viol \cup {<<m, l>> : m \in Failing(e)} ELSE viol
            /\ skipped' = IF pre THEN skipped ELSE skipped \cup {l}
+           /\ ghost' = Ghosts(e)
     /\ l' = l + 1 /\ UNCHANGED tid
 
 Done ==
     /\ l = Len(T) + 1
     /\ PrintT(<<"@@", [tid |-> Traces[tid].tid, rej |-> rej, viol |-> viol, skipped |-> skipped]>>)
-    /\ l' = l + 1 /\ UNCHANGED <<vars, tid, rej, viol, skipped>>
+    /\ l' = l + 1 /\ UNCHANGED <<vars, tid, rej, viol, skipped, ghost>>
 
 TNext == Step \/ Done
 TSpec == TInit /\ [][TNext]_<<vars, tvars>>
